@@ -72,8 +72,9 @@ class Budget:
     def __init__(self, tier="quick"):
         self.tier = tier
         self.max_paths = 400 if tier == "quick" else 3000
-        self.ob_timeouts = (3000, 10000, 20000) if tier == "quick" else (10000, 60000, 120000)
-        self.reach_timeout = 1000 if tier == "quick" else 3000
+        self.ob_timeouts = (3000, 10000, 20000)
+        self.ob_timeouts_long = None if tier == "quick" else (20000, 40000, 90000)
+        self.reach_timeout = 1000 if tier == "quick" else 1500
         self.cross_check = tier != "quick"
 
 
@@ -541,8 +542,13 @@ class Runner:
             P.__dict__["_abs_off"] = True
         except Exception:
             pass
-        for tier, to in zip((0, 1, 2), self.budget.ob_timeouts):
-            if verdict == "unsat":
+        rounds = [(t, to) for t, to in zip((0, 1, 2), self.budget.ob_timeouts)]
+        if getattr(self.budget, "ob_timeouts_long", None):
+            # thorough: first the quick ladder over all tiers, then the long timeouts (an obligation that needs the tier-2
+            # ordering constraints must not wait for the long tier-0 / tier-1 timeouts)
+            rounds += [(t, to) for t, to in zip((0, 1, 2), self.budget.ob_timeouts_long)]
+        for tier, to in rounds:
+            if verdict in ("unsat", "sat"):
                 break
             cons = P.constraints(tier) + [neg]
             r, s, dt = _solve(cons, to)
@@ -566,8 +572,8 @@ class Runner:
                 res.samples.append({"case": self.case_name, "obligation": name, "verdict": "unsat (linear abstraction + zero-product axioms, z3)", "path": _dec_str(P)})
         elif verdict == "unsat":
             res.by_step[f"t{used}"] += 1
-            if self.budget.cross_check and res.cross["agree"] + res.cross["disagree"] < 12:
-                c5 = _cvc5_check(P.constraints(used) + [neg], 20000)
+            if self.budget.cross_check and res.cross["agree"] + res.cross["disagree"] + res.cross["skipped"] < 6:
+                c5 = _cvc5_check(P.constraints(used) + [neg], 10000)
                 if c5 == "unsat":
                     res.cross["agree"] += 1
                 elif c5 == "sat":
@@ -715,7 +721,7 @@ class Runner:
 
     def _reach(self, P, ctx, tag):
         res = self.res
-        if sum(res.reach.values()) >= (30 if self.budget.tier == "quick" else 200):
+        if sum(res.reach.values()) >= (30 if self.budget.tier == "quick" else 60):
             res.reach["unchecked"] = res.reach.get("unchecked", 0) + 1
             return
         r, s, dt = _solve(P.constraints(2), self.budget.reach_timeout, rlimit=3000000)
